@@ -742,7 +742,28 @@ func c12DebugSession(w *W, r *rand.Rand) {
 	ch := make(chan eval.Event)
 	ev.EventChan = ch
 	eval.HandleDebugEvent(ev)
-	defer close(ch)
+	closed := false
+	defer func() {
+		if !closed {
+			close(ch)
+		}
+	}()
+	// afterwards: the same program with a channel and a consumer of the caller's own
+	defer func() {
+		if closed {
+			return
+		}
+		close(ch)
+		closed = true
+		vals := map[string]interface{}{"i0": int64(4), "b0": true}
+		po, _ := callExpr(plain, CallEval, &RecFetcher{Vals: vals, Keys: pcc.VariableKeyMap}, nil, false)
+		eo, evs := callExpr(ev, CallEval, &RecFetcher{Vals: vals, Keys: pcc.VariableKeyMap}, nil, true)
+		w.Evals += 2
+		w.Inc("own_consumer_after_debug_session")
+		if !outcomeEq(po, eo) || len(evs) == 0 {
+			w.Fail("event-mode-changes-result/own-consumer-after-HandleDebugEvent", "after a HandleDebugEvent session was closed, the same program evaluated with a channel and consumer of the caller's own: plain gives %s, traced gives %s, %d events received\nsource: %s (options %s, mode %d)", po, eo, len(evs), src, opts, mode)
+		}
+	}()
 	for step, i0 := range []int64{2, 0, 5, 0, 2, 1, 0, 3} {
 		vals := map[string]interface{}{"i0": i0, "b0": step%2 == 0}
 		kind := []CallKind{CallEval, CallTryEval}[r.Intn(2)]
